@@ -7,6 +7,8 @@ import subprocess
 HERE = os.path.dirname(os.path.abspath(__file__))
 VERIF = os.path.abspath(os.path.join(HERE, ".."))
 
+AUDIT_ROUND = {'C02': "Audit round: how tunnels end through the real endpoint on every transport (c02_ends: client first, destination first, both, destination reset, client reset): bytes complete on both sides, a failure never seen as a clean end, the endpoint's socket to the destination gone after a client failure; one known finding (HTTP/1.1 has no half-close)", 'C03': 'Audit round: resolver answers with several addresses are driven for real (a private hosts file bind-mounted in a mount namespace); theorems hostname_refusal_is_loopback_iff_all_loopback and hostname_refusal_class_order_independent on the corrected connect loop', 'C04': 'Audit round: rules files whose conditions have the wrong TOML type (matched by nothing, like any malformed condition); the ClientHello sent in two TLS records is judged with its random', 'C05': 'Audit round: theorem alternative_sni_designates_its_host (a configured alternative SNI comes before the credentials pattern, the order of the statement); the hosts file rewritten under the real binary + SIGHUP (missing certificate, not TOML, removed, duplicate name, certificate file without certificate, shared alternative SNI, then good): the process stays up, the names in force after every reload are the previous ones or the new ones', 'C06': "Audit round: the record limit is RFC 768's 65507-byte payload (Spec/UdpWire.v no longer copies the code's bound)", 'C07': 'Audit round: faults on one SOCKS5 association (malformed relay answer, closed relay port, association set up while the expiry tick falls) stay inside their flow: the tunnel stays open and every other datagram gets its reply; the associations model (Model/SocksFlows.v) has read / send errors and cut set-ups as operations', 'C09': 'Audit round: theorem forwarded_chunk_size_line_is_bounded; an origin whose status line, header value or chunk-size line never ends is refused within a stated bound (64 KiB / 4 KiB) whatever the segmentation', 'C10': "Audit round: 200 for a multiplexer only if it could be made (ok_iff takes the forwarder's answer for _icmp and _udp2; theorem refused_multiplexer_codes); sessions with and without an ICMP forwarder; a name with several loopback addresses is 311; CONNECT _udp2 through a SOCKS5 server that falls silent at any stage is answered 502 / 302 at the establishment timeout", 'C11': "Audit round: theorems unreachable_parsed_with_any_code, unreachable_quoting_a_request_is_reported, unsendable_request_is_dropped, failed_send_spares_the_others, failed_send_leaves_no_waiter, pending_until_its_timeout, reply_reported_while_pending (waiters carry their own deadline); CONNECT _icmp through the real listener with forged ICMP answers from a raw socket: every RFC-defined Destination Unreachable code reported, an unsendable request (TTL 0, oversize, broadcast, no IPv6 route) does not end the stream, a request sent again is not expired by its predecessor's deadline", 'C13': 'Audit round: hosts accepted iff every name (host names and alternative SNIs) has one entry and every certificate file holds a certificate (hosts_accepted_iff / hosts_refused_iff restated, accepted_host_names_are_distinct)', 'C14': "Audit round: theorem silent_upstream_settled_by_establishment_timeout (the forwarder's check of a multiplexer request runs under the establishment timeout), with the real endpoint against a SOCKS5 server that falls silent", 'C15': 'Audit round: theorems empty_fields_fail_unwritten, wellformed_credentials_are_not_empty, extended_values_of_a_request (the grammar asks for 1..255 / (0..MAX]); em_wellformed pins the address type of the request; end to end: plain GET requests to IPv4 / IPv6 literals without a port or with userinfo keep their address type at the SOCKS5 server; credentials with an empty half and an empty User-Agent never reach the wire as zero-length fields', 'C16': "Audit round: a client that is reset or vanishes while its tunnel's destination stays (c16_gone): outbound_tcp_sockets back to zero", 'C17': 'Audit round: through the real HTTP/1.1 codec (c17_front_h1): interim responses followed at once by the final head, request bodies slower than the idle timer of the other direction; OPTIONS with a path, Transfer-Encoding in any case and after other codings, Content-Length next to Transfer-Encoding for every client; theorems limited_chunk_size_parser_ok, stated_chunk_size_line_limit', 'C18': 'Audit round: the reverse proxy against a scripted origin (c18_rp) over the door, TLS and QUIC: request bodies the origin reads before answering, response heads up to 8000 bytes / 100 fields whole or cut at chosen offsets: one connection to the origin, the request and its body as sent, the response and its body as the origin wrote them', 'C19': 'Audit round: an HTTP/1.1 tunnel whose upload is stalled winds down within seconds of the submission', 'C20': 'Audit round: every needle is also searched in its decimal-array rendering; server names of hosts the endpoint does not serve, sessions without an authenticator, HTTP/3 sessions with credentials at trace level, in process and from the real binary'}
+
 CLAIMED = {
     "C03": dict(
         text="Coq theorems about the REGENERATED text of net_utils::is_global_*: for all 2^32 IPv4 addresses global iff outside the "
@@ -295,7 +297,7 @@ def main():
                 "evidence_file": "evidence/%s.json" % pid,
                 "replay_cmd_template": "cat {path}",
                 "engine": "coq-proof+correspondence",
-                "level_claimed": {"category": "proof", "text": c["text"], "design_ref": c["design"]},
+                "level_claimed": {"category": "proof", "text": c["text"] + ("; " + AUDIT_ROUND[pid] if pid in AUDIT_ROUND else ""), "design_ref": c["design"]},
                 "level_note": c["note"],
                 "technique": "machine-checked proof in Coq (Rocq) + correspondence check",
             })
